@@ -931,6 +931,88 @@ func runC01(args []string) int {
 		}
 		r.Extra["redefinition_streams"] = len(rcases)
 	}
+	// ------------------------------------------------ (b3) two records of ONE message carrying different fields:
+	// for every message and every ordered pair (A, B) of its listed fields where B admits several sizes (arrays,
+	// byte and string fields), a record with A alone and then a record with B alone, in the file type hosting the
+	// message.  What a container does with a message when it is added (component expansion, and whatever else
+	// file_types.go grows) may depend on what earlier messages of the type left behind and on the length of B.
+	{
+		byMF := map[uint16]map[byte][]accDef{}
+		for _, a := range accepted {
+			if !a.listed {
+				continue
+			}
+			if byMF[a.gmn] == nil {
+				byMF[a.gmn] = map[byte][]accDef{}
+			}
+			byMF[a.gmn][a.num] = append(byMF[a.gmn][a.num], a)
+		}
+		var gmns []int
+		for g := range byMF {
+			gmns = append(gmns, int(g))
+		}
+		sort.Ints(gmns)
+		perPair := sizes(o.tier, 1, 3, 12) // systematic over the pairs: not multiplied by the boost
+		var pcases []c01Case
+		var pmodel []bool
+		for _, gi := range gmns {
+			g := uint16(gi)
+			var nums []int
+			for n := range byMF[g] {
+				nums = append(nums, int(n))
+			}
+			sort.Ints(nums)
+			for _, nb := range nums {
+				defsB := byMF[g][byte(nb)]
+				if len(defsB) < 3 {
+					continue // B has no variable size
+				}
+				for _, na := range nums {
+					if na == nb {
+						continue
+					}
+					defsA := byMF[g][byte(na)]
+					for k := 0; k < perPair; k++ {
+						a, b := defsA[rg.intn(len(defsA))], defsB[rg.intn(len(defsB))]
+						if k == 0 {
+							// small sizes first: 1..13 covers every residue of the usual element and group sizes
+							small := defsB[:0:0]
+							for _, d := range defsB {
+								if d.size >= 1 && d.size <= 13 {
+									small = append(small, d)
+								}
+							}
+							if len(small) > 0 {
+								b = small[rg.intn(len(small))]
+							}
+						}
+						be := rg.bool()
+						arch := byte(0)
+						if be {
+							arch = 1
+						}
+						st := &stream{HdrSize: 14, Proto: 0x20, Profile: 2115, HdrCRC: "ok"}
+						st.Records = []record{
+							{Kind: "D", Local: 0, Gmn: 0, Fields: []fieldDefS{{0, 1, 0}}},
+							{Kind: "M", Local: 0, Pay: []byte{hostFt(g)}},
+							{Kind: "D", Local: 1, Arch: arch, Gmn: g, Fields: []fieldDefS{{a.num, a.size, a.bt}}},
+							{Kind: "M", Local: 1, Pay: rg.bytes(int(a.size))},
+							{Kind: "D", Local: 2, Arch: arch, Gmn: g, Fields: []fieldDefS{{b.num, b.size, b.bt}}},
+							{Kind: "M", Local: 2, Pay: rg.bytes(int(b.size))},
+						}
+						data := st.bytes()
+						pcases = append(pcases, c01Case{Entry: []string{"D", "C"}[k%2], Opts: "000", RS: readerSpec{Data: data}, Origin: "two records of one message with different fields",
+							Note: fmt.Sprintf("mesg=%d first field=%d size=%d basetype=0x%02x, then field=%d size=%d basetype=0x%02x bigendian=%v", g, a.num, a.size, a.bt, b.num, b.size, b.bt, be)})
+						pmodel = append(pmodel, true)
+					}
+				}
+			}
+		}
+		if code := runAndJudge(r, d, "field_pairs", pcases, pmodel, par); code != 0 {
+			return code
+		}
+		r.Extra["field_pair_streams"] = len(pcases)
+	}
 	r.Extra["accepted_definitions"] = hAcc
 	r.Extra["accepted_unlisted_definitions"] = nUnlisted
 	r.Extra["accepted_unlisted_sampled"] = len(unlistedRes)
